@@ -15,6 +15,10 @@ import (
 // GarbageSpec is fully determined by its seed.
 type GarbageSpec struct {
 	Seed int64 `json:"seed"`
+	// ProbeOf > 0: not garbage itself but a function consuming every result the garbage function
+	// History.Garbage[ProbeOf-1] declares (so that whatever an accepted garbage registration put
+	// into the container is actually resolved).
+	ProbeOf int `json:"probe,omitempty"`
 }
 
 // declared zoo for embeddings that reflect.StructOf cannot express
@@ -250,8 +254,82 @@ func (g *ggen) funcType(top bool) reflect.Type {
 	return reflect.FuncOf(ins, outs, variadic)
 }
 
+// probeFor builds func(In{...}) consuming every result key that fn's signature declares.
+func probeFor(fn interface{}) interface{} {
+	if fn == nil || reflect.TypeOf(fn).Kind() != reflect.Func {
+		return func() {}
+	}
+	ft := reflect.TypeOf(fn)
+	var fields []reflect.StructField
+	add := func(t reflect.Type, tag reflect.StructTag) {
+		f := reflect.StructField{Name: fmt.Sprintf("F%d", len(fields)), Type: t}
+		if g := tag.Get("group"); g != "" {
+			parts := strings.Split(g, ",")
+			flat := false
+			for _, p := range parts[1:] {
+				if p == "flatten" {
+					flat = true
+				}
+			}
+			if flat && t.Kind() == reflect.Slice {
+				t = t.Elem()
+			}
+			f.Type = reflect.SliceOf(t)
+			f.Tag = reflect.StructTag(fmt.Sprintf(`group:%q`, parts[0]))
+		} else {
+			tags := `optional:"true"`
+			if n := tag.Get("name"); n != "" && !strings.Contains(n, "`") {
+				tags += fmt.Sprintf(` name:%q`, n)
+			}
+			f.Tag = reflect.StructTag(tags)
+		}
+		fields = append(fields, f)
+	}
+	var walk func(t reflect.Type, depth int)
+	walk = func(t reflect.Type, depth int) {
+		if t.Kind() == reflect.Struct && dig.IsOut(t) && depth < 4 {
+			for i := 0; i < t.NumField(); i++ {
+				f := t.Field(i)
+				if f.Anonymous || f.PkgPath != "" {
+					continue
+				}
+				if f.Type.Kind() == reflect.Struct && dig.IsOut(f.Type) {
+					walk(f.Type, depth+1)
+					continue
+				}
+				add(f.Type, f.Tag)
+			}
+			return
+		}
+		if t.Implements(errT) || dig.IsIn(t) {
+			return
+		}
+		add(t, "")
+	}
+	for i := 0; i < ft.NumOut() && len(fields) < 12; i++ {
+		walk(ft.Out(i), 0)
+	}
+	all := append([]reflect.StructField{{Name: "In", Type: inT, Anonymous: true}}, fields...)
+	var st reflect.Type
+	func() {
+		defer func() {
+			if recover() != nil {
+				st = nil
+			}
+		}()
+		st = reflect.StructOf(all)
+	}()
+	if st == nil {
+		return func() {}
+	}
+	return reflect.MakeFunc(reflect.FuncOf([]reflect.Type{st}, nil, false), func([]reflect.Value) []reflect.Value { return nil }).Interface()
+}
+
 // Build returns the Go value passed as constructor / decorator / function.
 func (s GarbageSpec) Build(w *World) interface{} {
+	if s.ProbeOf > 0 && w != nil {
+		return probeFor(w.h.Garbage[s.ProbeOf-1].Build(w))
+	}
 	g := &ggen{r: rand.New(rand.NewSource(s.Seed))}
 	switch x := g.r.Intn(100); {
 	case x < 3:
@@ -291,6 +369,9 @@ var optGroups = []string{"g1", "g1,flatten", "g1,soft", ",flatten", "", "a`b", "
 
 // ProvideOpts returns generated options (a second, independent stream of the same seed).
 func (s GarbageSpec) ProvideOpts() []dig.ProvideOption {
+	if s.ProbeOf > 0 {
+		return nil
+	}
 	r := rand.New(rand.NewSource(s.Seed ^ 0x5eed))
 	var opts []dig.ProvideOption
 	if r.Intn(3) == 0 {
@@ -350,6 +431,9 @@ func (s GarbageSpec) ProvideOpts() []dig.ProvideOption {
 var garbageOptionPanic string
 
 func (s GarbageSpec) String() string {
+	if s.ProbeOf > 0 {
+		return fmt.Sprintf("probe consuming the results of garbage #%d", s.ProbeOf)
+	}
 	v := s.Build(nil)
 	t := "nil"
 	if v != nil {
@@ -381,10 +465,16 @@ func genGarbageHistory(r *rand.Rand) *History {
 		h.Garbage = append(h.Garbage, GarbageSpec{Seed: r.Int63()})
 		kind := []string{OpProvide, OpProvide, OpProvide, OpDecorate, OpInvoke}[r.Intn(5)]
 		op := Op{Kind: kind, Scope: r.Intn(scopes), Garbage: len(h.Garbage)}
-		h.Ops = append(h.Ops[:pos:pos], append([]Op{op}, h.Ops[pos:]...)...)
+		ins := []Op{op}
+		if kind != OpInvoke {
+			// resolve whatever an accepted garbage registration declared, from the same scope
+			h.Garbage = append(h.Garbage, GarbageSpec{ProbeOf: op.Garbage})
+			ins = append(ins, Op{Kind: OpInvoke, Scope: op.Scope, Garbage: len(h.Garbage)})
+		}
+		h.Ops = append(h.Ops[:pos:pos], append(ins, h.Ops[pos:]...)...)
 		for j := range h.Ops {
 			if h.Ops[j].VisErrOf > pos {
-				h.Ops[j].VisErrOf++
+				h.Ops[j].VisErrOf += len(ins)
 			}
 		}
 	}
@@ -437,7 +527,10 @@ func checkGarbage(c *Case, trace bool) *CaseResult {
 		if rec == nil {
 			continue
 		}
-		if op.Garbage > 0 {
+		if op.Garbage > 0 && c.H.Garbage[op.Garbage-1].ProbeOf > 0 {
+			res.Stats["garbage.probes"]++
+			res.Stats["garbage.probe."+rec.Verdict]++
+		} else if op.Garbage > 0 {
 			res.Stats["garbage.inputs"]++
 			res.Stats["garbage."+rec.Verdict]++
 			res.Situ[op.Kind+"/"+kindOfValue(c.H.Garbage[op.Garbage-1].Build(nil))+"/"+rec.Verdict]++
